@@ -59,6 +59,11 @@ func toItems(us []*api.ContainerUpdate) []updItem {
 		} else {
 			it.Shares = -1
 		}
+		// entries with odd shares are sent marked ignore-failure (fromItems); a flag that does not
+		// come back as sent shows as a content difference
+		if it.Shares >= 0 && u.GetIgnoreFailure() != (it.Shares%2 == 1) {
+			it.Shares = -2
+		}
 		out = append(out, it)
 	}
 	return out
@@ -67,7 +72,7 @@ func toItems(us []*api.ContainerUpdate) []updItem {
 func fromItems(items []updItem) []*api.ContainerUpdate {
 	var out []*api.ContainerUpdate
 	for _, it := range items {
-		out = append(out, &api.ContainerUpdate{ContainerId: it.ID,
+		out = append(out, &api.ContainerUpdate{ContainerId: it.ID, IgnoreFailure: it.Shares >= 0 && it.Shares%2 == 1,
 			Linux: &api.LinuxContainerUpdate{Resources: &api.LinuxResources{Cpu: &api.LinuxCPU{Shares: api.UInt64(uint64(it.Shares))}}}})
 	}
 	return out
